@@ -56,7 +56,10 @@ def nodes_equal(impl, model):
     for i, ((parts, obj, _path), (loc, val)) in enumerate(zip(impl, model)):
         if len(parts) != len(loc) or any(type(a) is not type(b) or a != b for a, b in zip(parts, loc)):
             return "node %d location %r != %r" % (i, parts, loc)
-        if isinstance(val, (list, dict)):
+        if type(val).__name__ == "_Val":
+            if not strict_eq(obj, val.v):
+                return "node %d value %s != %s" % (i, canon(obj)[:80], canon(val.v)[:80])
+        elif isinstance(val, (list, dict)):
             if obj is not val:
                 return "node %d at %r is not the document's own object" % (i, parts)
         elif not strict_eq(obj, val):
